@@ -86,6 +86,7 @@ func matches(re *regexp.Regexp, out string, group int) []string {
 
 var (
 	reDevice   = regexp.MustCompile(`(?m)^\s+\d+\. (\S+)$`)
+	reSpecSrc  = regexp.MustCompile(`SPECSRC=[A-Za-z0-9:./_-]+`)
 	reDeviceV  = regexp.MustCompile(`(?m)^  (\S+=\S+) \((\S+)\)$`)
 	reVendor   = regexp.MustCompile(`(?m)^\s+\d+\. "([^"]+)" \((\d+) CDI Spec Files\)$`)
 	reClass    = regexp.MustCompile(`(?m)^\s+\d+\. (\S+) \((\d+) vendors: (.*)\)$`)
@@ -207,6 +208,29 @@ func evalCDI(c Case, root string) hx.Result {
 					got = append(got, x[1])
 					if obs.Paths[x[1]] != x[2] {
 						return fail("device-source-differs", "device "+x[1]+" shown from "+x[2]+", library resolves it to "+obs.Paths[x[1]], obs.Paths, out)
+					}
+				}
+				// every device's block shows the Spec-level edits of the Spec file the library resolves it to
+				// (each file's Spec-level env carries a marker of that file), and of no other file
+				idx := reDeviceV.FindAllStringSubmatchIndex(out, -1)
+				for k, loc := range idx {
+					name := out[loc[2]:loc[3]]
+					end := len(out)
+					if k+1 < len(idx) {
+						end = idx[k+1][0]
+					}
+					block := out[loc[1]:end]
+					var want []string
+					if d := lib.GetDevice(name); d != nil {
+						for _, e := range d.GetSpec().ContainerEdits.Env {
+							if strings.HasPrefix(e, "SPECSRC=") {
+								want = append(want, e)
+							}
+						}
+					}
+					shown := sortedSet(reSpecSrc.FindAllString(block, -1))
+					if !eq(shown, sortedSet(want)) {
+						return fail("device-block-shows-other-spec-level-edits", fmt.Sprintf("device %s: the verbose listing shows Spec-level edits %v, the library's Spec for it has %v", name, shown, want), want, block)
 					}
 				}
 			} else {
